@@ -86,7 +86,10 @@ def run(rep, pdb, tier):
     iz = ("bool", ("call", "%s::is_zero" % PT, P(1)), True)
     empty = [g for g, c in errs if any(alt == frozenset([EQ(LEN(CO1), num(0))]) for alt in g.alts)]
     allzero = [g for g, c in errs if any(alt == frozenset([iz]) for alt in g.alts)]
-    rep.add("zero-divisor/empty", "division by the empty polynomial returns Err before anything else", len(empty) == 1, empty[0].node if empty else fn["body"], "")
+    # `is_zero()` is "every coefficient is zero" (decided by C11/is_zero, imported through the dependency closure), which holds vacuously
+    # for the empty polynomial: the all-zero guard alone refuses the empty divisor too
+    rep.add("zero-divisor/empty", "division by the empty polynomial returns Err before anything else (its own guard, or the all-zero guard, which the empty polynomial satisfies vacuously)",
+            len(empty) == 1 or (not empty and len(allzero) == 1), (empty or allzero)[0].node if (empty or allzero) else fn["body"], "")
     rep.add("zero-divisor/all-zero", "division by an all-zero polynomial returns Err before anything else", len(allzero) == 1, allzero[0].node if allzero else fn["body"], "")
     okalts = (frozenset([EQ(LEN(CO1), num(0))]), frozenset([iz]))
     errs_all = []
